@@ -119,6 +119,11 @@ unsafe impl Configuration for CGen {
     }
 }
 
+/// `FunctionIngredientRef::new` for harness ingredients.
+pub(crate) fn fn_ref<'a>(x: &'a dyn FunctionIngredient) -> FunctionIngredientRef<'a> {
+    FunctionIngredientRef::new(x)
+}
+
 // ---- harness state shared with the stubs ---------------------------------------------------------
 /// address of the memo currently stored for the key (0 = none)
 pub(crate) static mut CUR_MEMO: usize = 0;
